@@ -13,6 +13,7 @@ NN(t) == [k |-> "nn", of |-> t]
 Arg(n, t) == [name |-> n, type |-> t, hasDef |-> FALSE]
 ArgD(n, t) == [name |-> n, type |-> t, hasDef |-> TRUE]
 ArgN(n, t) == [name |-> n, type |-> t, hasDef |-> TRUE, nul |-> TRUE]     \* explicit "= null" default
+ArgL(n, t, lit) == [name |-> n, type |-> t, hasDef |-> TRUE, lit |-> lit]  \* default spelled as the enum value `lit`
 Fld(n, t, as, dep) == [name |-> n, type |-> t, args |-> as, dep |-> dep]
 Obj(n, ifs, fs) == [k |-> "object", name |-> n, ifaces |-> ifs, fields |-> fs, members |-> <<>>, values |-> <<>>]
 Ifc(n, fs) == [k |-> "interface", name |-> n, ifaces |-> <<>>, fields |-> fs, members |-> <<>>, values |-> <<>>]
@@ -57,7 +58,9 @@ Menu == <<
   Def(Obj("Mutation", <<>>, <<Fld("m", Named("Int"), <<>>, "")>>)),                                        \* 31 conventional root name: a root only when there is no schema definition
   Def(Obj("Subscription", <<>>, <<Fld("s", Named("Int"), <<>>, "")>>)),                                    \* 32 likewise
   Ext("Node", Ifc("Node", <<Fld("next", Named("Node"), <<>>, ""), Fld("pick", Named("Int"), <<Arg("from", Named("Node2In"))>>, "")>>)),  \* 33 extension fields typed by types of the document (needs 34)
-  Def(Inp("Node2In", <<ArgD("x", Named("Int"))>>))                                                          \* 34
+  Def(Inp("Node2In", <<ArgD("x", Named("Int"))>>)),                                                         \* 34
+  Ext("In2", Inp("In2", <<Arg("me", Named("In2")), Arg("peers", ListOf(NN(Named("In2"))))>>)),                 \* 35 extension fields typed by the extended input type itself
+  Ext("Query", Obj("Query", <<>>, <<Fld("lv", Named("Int"), <<ArgL("e", Named("E"), "C")>>, "")>>))              \* 36 a default naming an enum value that only an extension (14) declares
 >>
 VARIABLES picked, done
 Init == picked = <<1>> /\ done = FALSE          \* Query type always present
@@ -115,6 +118,12 @@ Build(doc) ==
                    IF merged[i].k = "input" THEN kindOf(Inner(merged[i].fields[f].type)) \in {"scalar", "enum", "input"}
                    ELSE /\ kindOf(Inner(merged[i].fields[f].type)) \in {"scalar", "enum", "object", "interface", "union"}
                         /\ \A a \in 1..Len(merged[i].fields[f].args) : kindOf(Inner(merged[i].fields[f].args[a].type)) \in {"scalar", "enum", "input"}
+      \* defaults spelled as enum values must name a value of the (merged) enum
+      litOk == \A i \in 1..Len(merged) : \A f \in 1..Len(merged[i].fields) :
+                 merged[i].k = "input" \/ \A a \in 1..Len(merged[i].fields[f].args) :
+                    LET x == merged[i].fields[f].args[a] IN
+                    ("lit" \in DOMAIN x /\ known(Inner(x.type)) /\ kindOf(Inner(x.type)) = "enum") =>
+                        \E v \in 1..Len(byName(Inner(x.type)).values) : byName(Inner(x.type)).values[v].name = x.lit
       q == IF ss = <<>> THEN "Query" ELSE ss[1].target
       sx == SchemaExts(doc)
       \* 3.2.1: without a schema definition the types named Query / Mutation / Subscription are the roots; with one, only what it lists
@@ -125,6 +134,7 @@ Build(doc) ==
      ELSE IF extErr \/ (sx # <<>> /\ conv("Mutation") # "") THEN [ok |-> FALSE, err |-> "ExtensionError", schema |-> <<>>]   \* (a schema extension cannot re-define a root)
      ELSE IF ~refsOk THEN [ok |-> FALSE, err |-> "SDLError", schema |-> <<>>]
      ELSE IF mut # "" /\ mut \notin tnames THEN [ok |-> FALSE, err |-> "SDLError", schema |-> <<>>]
+     ELSE IF ~litOk THEN [ok |-> FALSE, err |-> "InvalidValue", schema |-> <<>>]
      ELSE IF ~(q \in tnames /\ kindOf(q) = "object") \/ ~implOk \/ ~unionOk \/ ~posOk \/ (mut # "" /\ kindOf(mut) # "object") THEN [ok |-> FALSE, err |-> "SchemaError", schema |-> <<>>]
      ELSE [ok |-> TRUE, err |-> "", schema |-> [query |-> q, mutation |-> mut, subscription |-> sub, types |-> merged]]
 \* rn: what build_schema(ignore_extensions = TRUE) must give: the document without its extension items
